@@ -1,2 +1,2 @@
 import IstioModel.C04.Driver
-def main (_ : List String) : IO Unit := IstioModel.Wire.run IstioModel.C04.State.empty IstioModel.C04.step
+def main (_ : List String) : IO Unit := IstioModel.Wire.run ({} : IstioModel.C04.DState) IstioModel.C04.stepD
